@@ -118,6 +118,7 @@ def metadata_real_lines(n: int, k0: int, k1: int, k2: int, first: bool, pad: boo
     """
     pre: 1 <= n <= NMAX and all(0 <= k < len(TOKS) for k in [k0, k1, k2])
     pre: K0 < 0 or k0 == K0
+    pre: not third or STRF != 12
     post: _
     """
     pascal, snake, kind, default = FIELDS[STRF]
